@@ -26,8 +26,11 @@ type Q struct {
 	K    string   `json:"k"` // canreach | reach | slice | or | xor
 	A    uint64   `json:"a"`
 	B    uint64   `json:"b,omitempty"`
-	Dir  string   `json:"dir"` // out | in
+	Dir  string   `json:"dir"` // out | in | both
 	Seed []uint64 `json:"seed,omitempty"`
+	// N > 1: the query is asked N times in a row (every answer is checked). Long histories cost nothing to
+	// describe; bookkeeping that counts searches (generation stamps, epochs, statistics) only wraps in them.
+	N int `json:"n,omitempty"`
 }
 
 type WL struct {
@@ -107,6 +110,9 @@ func gen(r *rand.Rand) WL {
 		if dagish && r.IntN(3) > 0 {
 			q.K, q.Dir = "reach", "out"
 		}
+		if !dagish && r.IntN(6) == 0 {
+			q.Dir = "both"
+		}
 		if q.K == "canreach" {
 			q.B = pick()
 		}
@@ -116,6 +122,17 @@ func gen(r *rand.Rand) WL {
 			}
 		}
 		w.Queries = append(w.Queries, q)
+	}
+	if r.IntN(300) == 0 && len(w.Queries) >= 2 {
+		// a long history: canreach questions repeated up to and a little beyond 2^8 / 2^16 times between
+		// other queries
+		for i := range w.Queries {
+			if w.Queries[i].K == "canreach" || r.IntN(2) == 0 {
+				w.Queries[i].K = "canreach"
+				w.Queries[i].B = pick()
+				w.Queries[i].N = []int{1, 1, 250 + r.IntN(12), 65530 + r.IntN(12), 32768 + r.IntN(4)}[r.IntN(5)]
+			}
+		}
 	}
 	return w
 }
@@ -167,6 +184,10 @@ func bfs(w WL, a uint64, dir string) map[uint64]bool {
 				seen[to] = true
 				queue = append(queue, to)
 			}
+			if dir == "both" && to == x && !seen[from] {
+				seen[from] = true
+				queue = append(queue, from)
+			}
 		}
 	}
 	return seen
@@ -192,6 +213,9 @@ func sorted(vs []uint64) []uint64 {
 func gdir(d string) graph.Direction {
 	if d == "in" {
 		return graph.DirectionInbound
+	}
+	if d == "both" {
+		return graph.DirectionBoth
 	}
 	return graph.DirectionOutbound
 }
@@ -280,6 +304,33 @@ func checkSCC(w WL, cg algo.ComponentGraph) string {
 	return ""
 }
 
+// answer renders what the cache says to one query (used for the direction the statement does not
+// define by a search - graph.DirectionBoth - where the only obligation is independence of history).
+func answer(rc *algo.ReachabilityCache, q Q) string {
+	switch q.K {
+	case "canreach":
+		return fmt.Sprint(rc.CanReach(q.A, q.B, gdir(q.Dir)))
+	case "reach":
+		return fmt.Sprint(sorted(rc.ReachOfComponentContainingMember(q.A, gdir(q.Dir)).Slice()))
+	case "slice":
+		u := map[uint64]bool{}
+		for _, d := range rc.ReachSliceOfComponentContainingMember(q.A, gdir(q.Dir)) {
+			for _, v := range d.Slice() {
+				u[v] = true
+			}
+		}
+		return fmt.Sprint(keys(u))
+	case "or":
+		d := cardinality.NewBitmap64With(q.Seed...)
+		rc.OrReach(q.A, gdir(q.Dir), d)
+		return fmt.Sprint(sorted(d.Slice()))
+	default:
+		d := cardinality.NewBitmap64With(q.Seed...)
+		rc.XorReach(q.A, gdir(q.Dir), d)
+		return fmt.Sprint(sorted(d.Slice()))
+	}
+}
+
 func exec(t *testing.T, w WL, cfg simrt.Config) simh.Outcome {
 	var (
 		bad      string
@@ -298,16 +349,36 @@ func exec(t *testing.T, w WL, cfg simrt.Config) simh.Outcome {
 			}
 			rc := algo.NewReachabilityCache(context.Background(), dg, w.Cap)
 			for qi, q := range w.Queries {
+				if q.Dir == "both" {
+					// no search defines this direction in the statement; what is owed is that the answer does not
+					// depend on the earlier queries: ask a cache that has never been asked anything
+					got := answer(rc, q)
+					want := answer(algo.NewReachabilityCache(context.Background(), dg, 100), q)
+					answers = append(answers, fmt.Sprintf("%s(%d,both)=%s", q.K, q.A, got))
+					if got != want {
+						bad, class = fmt.Sprintf("query %d: %s(%d,%d,both) = %s after this history, %s from a fresh cache over the same graph", qi, q.K, q.A, q.B, got, want), "oracle:reach"
+						return
+					}
+					counters["both_direction_queries"]++
+					continue
+				}
 				truth := bfs(w, q.A, q.Dir)
 				var got, want []uint64
 				switch q.K {
 				case "canreach":
-					g := rc.CanReach(q.A, q.B, gdir(q.Dir))
 					exp := truth[q.B]
-					answers = append(answers, fmt.Sprintf("canreach(%d,%d,%s)=%v", q.A, q.B, q.Dir, g))
-					if g != exp {
-						bad, class = fmt.Sprintf("query %d: CanReach(%d,%d,%s) = %v, breadth-first search says %v", qi, q.A, q.B, q.Dir, g, exp), "oracle:reach"
-						return
+					for rep := 0; rep < max(1, q.N); rep++ {
+						g := rc.CanReach(q.A, q.B, gdir(q.Dir))
+						if rep == 0 {
+							answers = append(answers, fmt.Sprintf("canreach(%d,%d,%s)=%v x%d", q.A, q.B, q.Dir, g, max(1, q.N)))
+						}
+						if g != exp {
+							bad, class = fmt.Sprintf("query %d (repetition %d of %d): CanReach(%d,%d,%s) = %v, breadth-first search says %v", qi, rep+1, max(1, q.N), q.A, q.B, q.Dir, g, exp), "oracle:reach"
+							return
+						}
+					}
+					if q.N > 1 {
+						counters["long_history_queries"]++
 					}
 					continue
 				case "reach":
@@ -412,6 +483,16 @@ func shrink(w WL) []WL {
 		}
 	}
 	for i, q := range w.Queries {
+		if q.N > 1 {
+			for _, n := range []int{1, q.N / 2, q.N - 1} {
+				c := w
+				c.Queries = append([]Q{}, w.Queries...)
+				q2 := q
+				q2.N = n
+				c.Queries[i] = q2
+				res = append(res, c)
+			}
+		}
 		if len(q.Seed) > 0 {
 			c := w
 			c.Queries = append([]Q{}, w.Queries...)
@@ -425,5 +506,14 @@ func shrink(w WL) []WL {
 }
 
 func TestSim(t *testing.T) {
-	simh.Main(t, simh.Harness[WL]{Property: "C15", Gen: gen, Exec: exec, Shrink: shrink})
+	simh.Main(t, simh.Harness[WL]{Property: "C15", Gen: gen, Exec: exec, Shrink: shrink,
+		Tune: func(w WL, cfg *simrt.Config) {
+			// the step budget is a bound on a run that makes no progress, not on the length of the history
+			n := 0
+			for _, q := range w.Queries {
+				n += max(1, q.N)
+			}
+			need := max(20000, 400*n)
+			cfg.MaxSteps, cfg.FairSteps = need, need
+		}})
 }
